@@ -151,6 +151,25 @@ Definition step_early (p : nat) (c : conf) : conf :=
 Definition run_early (sched : list nat) (c : conf) : conf :=
   fold_left (fun c p => step_early p c) sched c.
 
+(* the mutation "an update that would not change the writer's CACHED record is skipped": no lock,
+   no read, success reported.  [same] compares records.  Everything else as in [step true]. *)
+Definition step_cached (same : R -> R -> bool) (p : nat) (c : conf) : conf :=
+  match nth_error (c_procs c) p with
+  | None => c
+  | Some pr =>
+    match p_phase pr, p_ops pr with
+    | Idle, OUpd f :: rest =>
+      if same (f (p_mem pr)) (p_mem pr)
+      then mkConf (c_file c) (c_lock c) (upd p (mkProc rest Idle (p_mem pr)) (c_procs c))
+                  (c_order c) (c_reads c) (c_trace c)
+      else step true p c
+    | _, _ => step true p c
+    end
+  end.
+
+Definition run_cached (same : R -> R -> bool) (sched : list nat) (c : conf) : conf :=
+  fold_left (fun c p => step_cached same p c) sched c.
+
 Definition run (locking : bool) (sched : list nat) (c : conf) : conf :=
   fold_left (fun c p => step locking p c) sched c.
 
@@ -223,6 +242,7 @@ Arguments Idle {R}. Arguments ULocked {R} f. Arguments UOpened {R} f. Arguments 
 Arguments UApplied {R} f. Arguments UTrunced {R} f. Arguments UWritten {R} f.
 Arguments LLocked {R}. Arguments LOpened {R}. Arguments LReadDone {R}. Arguments first_phase {R}.
 Arguments SvLocked {R}. Arguments SvTrunced {R}. Arguments SvWritten {R}. Arguments SvPre {R}.
+Arguments step_cached {R}. Arguments run_cached {R}.
 Arguments step_early {R}. Arguments run_early {R}. Arguments is_save {R}. Arguments no_saves {R}.
 
 (* ---------- the instance exercised by the harness: counters ----------
@@ -293,6 +313,16 @@ Definition kprogs (nw : nat) (progs : list (list kop)) := kprogs_from nw O progs
    the record the segment starts from, [order] = the writers in the order in which their updates
    saw the record of their predecessor, [final] the record after the last of them, [loads] the
    records that concurrent Loads (and the updates themselves) were given. *)
+Inductive xop := XIncr | XSet (slot : nat) (n : N) | XLoad | XSave.
+
+Definition xop_op (w : nat) (x : xop) : op crec :=
+  match x with
+  | XIncr => OUpd (incr w)
+  | XSet slot n => OUpd (set_own slot n)
+  | XLoad => OLoad
+  | XSave => OSave
+  end.
+
 Inductive lock_case :=
 | CTrace (nw : nat) (file0 : option crec) (progs : list (list kop)) (obs : list (nat * label))
          (reads : list (nat * option crec)) (final : option crec)
@@ -300,7 +330,14 @@ Inductive lock_case :=
 (* a stress round with a STDoutWriter: [order] = all writes in the order recovered from what the
    updates saw, (w, None) an increment by w, (w, Some n) saveStdoutSize(n) by w; every record
    anybody was given must be the stored record after some prefix *)
-| CStressO (nw : nat) (file0 : option crec) (order : list (nat * option N)) (final : crec) (seen : list crec).
+| CStressO (nw : nat) (file0 : option crec) (order : list (nat * option N)) (final : crec) (seen : list crec)
+(* a round of long-lived writer objects (one BaseWorkUnit per process, as daemon and runner have):
+   [order] = all operations in the order recovered (scripted operations are sequential, the
+   background increments placed by what they saw); XSet slot n = UpdateBasicStatus / an
+   UpdateFullStatus setting the basic fields to value n (slot = the counter that stands for them),
+   XSave = BaseWorkUnit.Save of the object's cached record, XLoad = Load into it.  [final] the
+   stored record afterwards; every record in [seen] must be the stored record after some prefix *)
+| CScript (nw : nat) (file0 : option crec) (order : list (nat * xop)) (final : crec) (seen : list crec).
 
 Definition fc_of (o : option crec) : fcontent crec :=
   match o with Some r => FRec r | None => FEmpty end.
@@ -334,6 +371,13 @@ Definition lock_check (c : lock_case) : bool :=
                                      | None => OUpd (incr (fst x))
                                      | Some n => OUpd (set_own (fst x) n)
                                      end)) order in
+    let states := prefix_files a0 ops in
+    forallb (fun x => Nat.ltb (fst x) nw) order
+    && fc_eqb (a_file (atomic_run a0 ops)) (FRec final)
+    && forallb (fun r => existsb (fc_eqb (FRec r)) states) seen
+  | CScript nw file0 order final seen =>
+    let a0 := a_init (fc_of file0) (map (fun _ => ([], crec0 nw)) (seq 0 nw)) in
+    let ops := map (fun x => (fst x, xop_op (fst x) (snd x))) order in
     let states := prefix_files a0 ops in
     forallb (fun x => Nat.ltb (fst x) nw) order
     && fc_eqb (a_file (atomic_run a0 ops)) (FRec final)
